@@ -230,6 +230,51 @@ def _judge(spec, b, out) -> dict:
         viol.append({"klass": None, "sig": "last-page-without-table-row", "detail": f"last table row is on page {last_pi + 1}/{n_pages}"})
 
     if multi:
+        # ---- clause 5 where it is safe in a multi-section document: rows inside a section and the rows
+        # where two sections meet on the same page.  A section joint is neither the first / last table row
+        # of the document nor a page boundary, so those edges are "other" edges: the user's own borders.
+        tags = "ABCDE"
+        for pi, (rows, _paras) in enumerate(pages):
+            for i, (row, role, info) in enumerate(rows):
+                if role != "data" or info[0] not in tags[:len(spec["sections"])]:
+                    continue
+                si, r = tags.index(info[0]), info[1]
+                sspec, sb = spec["sections"][si], b.sections[si]
+                skw = sspec.get("body") or {}
+                if len(row.cells) != len(sb.shown):
+                    viol.append({"klass": None, "sig": "data-row-cell-count", "detail": f"section {si + 1} row {r}: {len(row.cells)} cells"})
+                    continue
+                oidx = [sb.colnames.index(cn) for cn in sb.shown]
+                where = f"section {si + 1}/{len(spec['sections'])} data row {info[0]}{r} (page {pi + 1}/{n_pages})"
+                prev = rows[i - 1] if i > 0 else None
+                nxt = rows[i + 1] if i + 1 < len(rows) else None
+                # top: preceded on the same page by a data row of the same section (interior), or first row of a
+                # later header-less section that continues below other table rows of the page (section joint)
+                same_sec_above = prev is not None and prev[1] == "data" and prev[2][0] == info[0]
+                joint_top = (r == 0 and si > 0 and prev is not None and sspec.get("header", "default") == "none")
+                if same_sec_above or joint_top:
+                    bump("multi-c5-joint-top-edges" if joint_top else "multi-c5-edges")
+                    want = [CODE[user_style(skw, "top", r, k)] for k in oidx]
+                    if _row_edge(row, "t") != want:
+                        bad("clause5-multi-user-top", where + (", first row of a header-less later section" if joint_top else ""),
+                            _fmt(want), row, "t", sigx="-joint" if joint_top else "")
+                # bottom: followed by another table row on the same page and not the last table row of the document
+                if nxt is not None and row is not lrow:
+                    joint_bottom = not (nxt[1] == "data" and nxt[2][0] == info[0])
+                    bump("multi-c5-joint-bottom-edges" if joint_bottom else "multi-c5-edges")
+                    want = [CODE[user_style(skw, "bottom", r, k)] for k in oidx]
+                    if _row_edge(row, "b") != want:
+                        bad("clause5-multi-user-bottom", where + f", followed by {nxt[1]}" + (" (section joint)" if joint_bottom else ""),
+                            _fmt(want), row, "b", sigx="-joint" if joint_bottom else "")
+                bump("multi-c5-edges", 2)
+                want = [CODE[user_style(skw, "left", r, k)] for k in oidx]
+                if _row_edge(row, "l") != want:
+                    bad("clause5-multi-user-left", where, _fmt(want), row, "l")
+                wr = CODE[user_style(skw, "right", r, oidx[-1])]
+                if got_style(row.cells[-1], "r") != wr:
+                    viol.append({"klass": None, "sig": "clause5-multi-user-right",
+                                 "detail": f"clause5-multi-user-right: {where}: right edge of the last cell is "
+                                           f"{got_style(row.cells[-1], 'r') or 'none'}, expected {wr or 'none'}"})
         nt = n_pages >= 2 or lrole != "data"
         return {"viol": viol, "nt": nt, "cnt": {**cnt, "multi": 1, f"multi-pages={min(n_pages, 4)}": 1},
                 "sample": {"first": [frole, _row_edge(frow, "t")], "last": [lrole, _row_edge(lrow, "b")], "pages": n_pages}
@@ -403,7 +448,7 @@ def plan(run):
         "the four settings x a 2-page anchor set; per-cell user-border matrices on interior rows of one-page documents; header variants "
         "(auto header, two header rows, pageby_header=False); exactly one of rtf_page.border_last / rtf_body.border_last = '' with distinct own "
         "border_bottom on table-rendered footnote/source x the 162 cells x sizes (x strategies), each document encoded twice and both outputs judged; "
-        "2- and 3-section documents (clauses 1 and 2 only). "
+        "2- and 3-section documents, distinct user styles per section, sections with / without headers (clauses 1, 2 and clause 5 inside sections and at section joints). "
         "non-trivial = >= 2 pages or a table-rendered footnote/source closes the table; distinct = distinct spec")
     run.assumptions = [
         "the RTF reader (mc/rtfreader) and the role classification by sentinel tags are correct; a side without \\clbrdrX or without a style word is 'no border'",
@@ -417,7 +462,11 @@ def plan(run):
         "with page_by and column headers 'the first data row of every page' is read literally: the first row carrying data cells, i.e. the row below the group heading row",
         "interior vertical edges are observed as the left edge of the right-hand cell; border_right is demanded on the last cell of a row only",
         "full per-row user-border matrices are enumerated on one-page documents only: on later pages the matrix is re-based per page (C09's finding), which is not this property's subject",
-        "multi-section documents are judged on the first and last clauses only (page boundaries between sections are not 'inside a table')",
+        "multi-section documents (sections continue on the same page: new_page=False) are judged on the first and last clauses and on clause 5 where it is "
+        "safe: edges between two rows that follow each other on the same page - inside a section, and where sections meet (bottom of a section's last "
+        "data row when another table row follows on the page; top of the first row of a later section WITHOUT column header). A section joint is neither "
+        "the first/last table row of the document nor a page boundary. Not judged: the top of a later section's first row under its own column header "
+        "(per-section border_first is a defensible reading), and edges at page breaks inside a section",
     ]
     seed = run.seed
     rots = list(range(len(STYLES))) if not quick else [(seed * 5) % 14, (seed * 5 + 7) % 14]
@@ -512,7 +561,7 @@ def plan(run):
                         em.append(table_spec(fn, src, pf, ps, hm, strat, "2", a, "scalar", **more))
     run.layer("one-empty-closing-style-encoded-twice", "mc.props.c07:eval_case", em, chunk=80, total=len(em))
 
-    # multi-section documents: clauses 1 and 2
+    # multi-section documents: clauses 1 and 2, and clause 5 inside sections and where sections meet
     ms = []
     for k in (rots if not quick else rots[:1]):
         a = assignment(k)
@@ -524,8 +573,9 @@ def plan(run):
                             secs = []
                             for si in range(nsec):
                                 hm = "explicit" if hmode == "explicit" or (hmode == "first-only" and si == 0) else "none"
+                                ut, ub = (("UT", "UB"), ("UT2", "UB2"), ("UL", "UR"))[si]   # distinct user styles per section
                                 secs.append({"n": n, "cols": COLS[:2], "header": hm,
-                                             "body": {"border_first": a["BF"], "border_last": a["BL"], "border_top": a["UT"], "border_bottom": a["UB"]}})
+                                             "body": {"border_first": a["BF"], "border_last": a["BL"], "border_top": a[ut], "border_bottom": a[ub]}})
                             ms.append({"kind": "multi", "sections": secs, "title": 1, "footnote": fn, "source": src,
                                        "page": {"nrow": nrow, "page_footnote": pf, "page_source": ps, "border_first": a["PF"], "border_last": a["PL"]}})
     run.layer("multi-section-first-last", "mc.props.c07:eval_case", ms, chunk=80, total=len(ms))
@@ -536,7 +586,8 @@ def plan(run):
                  "plain:pages=3", "page_by:pages=3", "subline_by:pages=3",
                  "doc-closing-row=data", "doc-closing-row=footnote_table", "doc-closing-row=source_table",
                  "page-closing-row=data", "page-closing-row=footnote_table", "page-closing-row=source_table",
-                 "c1-excluded-page_by-without-header", "c2-empty-page-border_last", "c3-empty-body-border_last",
+                 "c1-excluded-page_by-without-header", "multi-c5-edges", "multi-c5-joint-top-edges", "multi-c5-joint-bottom-edges",
+                 "c2-empty-page-border_last", "c3-empty-body-border_last",
                  "repeated-encodes-judged"):
         if not run.cnt.get(need):
             run.harness_errors.append({"layer": "vacuity", "case": None, "error": f"vacuity guard: counter {need!r} is zero"})
